@@ -36,10 +36,99 @@ func Strip(v ssa.Value) ssa.Value {
 			v = x.X
 		case *ssa.ChangeInterface:
 			v = x.X
+		case *ssa.UnOp:
+			// a local variable assigned once and kept in memory only because a function literal
+			// captures it (or its address is taken for reading): the load is the assigned value
+			if x.Op == token.MUL {
+				if a, ok := x.X.(*ssa.Alloc); ok {
+					if sv := singleAssigned(a, x); sv != nil {
+						v = sv
+						continue
+					}
+				}
+			}
+			return v
 		default:
 			return v
 		}
 	}
+}
+
+var singleStoreMemo = map[*ssa.Alloc]*ssa.Store{}
+var singleStoreSeen = map[*ssa.Alloc]bool{}
+
+// singleAssigned: the scalar local a (not a struct or array, whose parts may be written
+// separately) is stored to exactly once, no function literal writes it, its address does not
+// escape, and that store dominates the load: the stored value.
+func singleAssigned(a *ssa.Alloc, ld *ssa.UnOp) ssa.Value {
+	st, seen := singleStoreMemo[a], singleStoreSeen[a]
+	if !seen {
+		singleStoreSeen[a] = true
+		st = nil
+		ok := a.Referrers() != nil
+		switch a.Type().(*types.Pointer).Elem().Underlying().(type) {
+		case *types.Struct, *types.Array:
+			ok = false
+		}
+		n := 0
+		if ok {
+			for _, r := range *a.Referrers() {
+				switch x := r.(type) {
+				case *ssa.Store:
+					if x.Addr != ssa.Value(a) {
+						ok = false
+					}
+					st = x
+					n++
+				case *ssa.UnOp, *ssa.DebugRef:
+				case *ssa.MakeClosure:
+					fn, _ := x.Fn.(*ssa.Function)
+					for i, b := range x.Bindings {
+						if b != ssa.Value(a) || fn == nil || i >= len(fn.FreeVars) {
+							continue
+						}
+						if refs := fn.FreeVars[i].Referrers(); refs != nil {
+							for _, fr := range *refs {
+								switch y := fr.(type) {
+								case *ssa.UnOp, *ssa.DebugRef:
+								case *ssa.Store:
+									if y.Addr == ssa.Value(fn.FreeVars[i]) {
+										ok = false
+									}
+								default:
+									ok = false
+								}
+							}
+						}
+					}
+				default:
+					ok = false
+				}
+			}
+		}
+		if !ok || n != 1 {
+			st = nil
+		}
+		singleStoreMemo[a] = st
+	}
+	if st == nil {
+		return nil
+	}
+	if st.Block() == ld.Block() {
+		for _, in := range st.Block().Instrs {
+			if in == ssa.Instruction(st) {
+				return st.Val
+			}
+			if in == ssa.Instruction(ld) {
+				return nil
+			}
+		}
+		return nil
+	}
+	if st.Block().Dominates(ld.Block()) {
+		return st.Val
+	}
+	return nil
 }
 
 // FieldOfAddr returns the struct field addressed by v if v is a FieldAddr.
@@ -1369,30 +1458,69 @@ func retClass(v ssa.Value, kind string) int {
 	return 0
 }
 
-// allocatingCtor: every return of fn yields a freshly allocated (non-nil) first result.
+// allocatingCtor: every return of fn yields a non-nil first result: a fresh object, the result of
+// another such function, or a merge of those (memoised; three levels).
+var allocCtorMemo = map[*ssa.Function]int{}
+
 func allocatingCtor(fn *ssa.Function, depth int) bool {
-	if fn.Blocks == nil || depth > 2 {
+	if fn.Blocks == nil || depth > 3 {
 		return false
 	}
+	switch allocCtorMemo[fn] {
+	case 1:
+		return true
+	case 2:
+		return false
+	case 3:
+		return false // in progress
+	}
+	allocCtorMemo[fn] = 3
 	ok := true
 	n := 0
+	var nonNil func(v ssa.Value, d int) bool
+	nonNil = func(v ssa.Value, d int) bool {
+		if d > 6 {
+			return false
+		}
+		switch x := v.(type) {
+		case *ssa.Alloc, *ssa.MakeInterface:
+			return true
+		case *ssa.Call:
+			cal := x.Call.StaticCallee()
+			return cal != nil && inModule(cal) && allocatingCtor(cal, depth+1)
+		case *ssa.Phi:
+			for _, e := range x.Edges {
+				if !nonNil(e, d+1) {
+					return false
+				}
+			}
+			return len(x.Edges) > 0
+		case *ssa.ChangeType:
+			return nonNil(x.X, d+1)
+		}
+		return false
+	}
 	AllInstrs(fn, func(in ssa.Instruction) {
 		ret, isRet := in.(*ssa.Return)
 		if !isRet || len(ret.Results) == 0 {
 			return
 		}
 		n++
-		switch x := ret.Results[0].(type) {
-		case *ssa.Alloc, *ssa.MakeInterface:
-		case *ssa.Call:
-			if cal := x.Call.StaticCallee(); cal == nil || !allocatingCtor(cal, depth+1) {
-				ok = false
-			}
-		default:
+		if !nonNil(ret.Results[0], 0) {
 			ok = false
 		}
 	})
-	return ok && n > 0
+	res := ok && n > 0
+	if depth == 0 || res {
+		if res {
+			allocCtorMemo[fn] = 1
+		} else {
+			allocCtorMemo[fn] = 2
+		}
+	} else {
+		delete(allocCtorMemo, fn) // a depth-limited negative is not final
+	}
+	return res
 }
 
 // summariseWrapper: for `if callee(args)` adds the edge(s) on which each guard is implied.
